@@ -81,7 +81,7 @@ Lemma pairs_parse_map s bs l r : pairs s bs l r ->
   exists F, forall acc, parse_map F (len l) bs acc = Some (VMap (rev acc ++ l), r).
 Proof.
   induction 1 as [bs|bs k r1 v r2 l r' (f1 & H1 & _) (f2 & H2 & _) _ (F & HF)].
-  - exists 1%nat. intros acc. rewrite app_nil_r. reflexivity.
+  - exists 1%nat. intros acc. rewrite app_nil_r, rev_alt. reflexivity.
   - exists (S (Nat.max (Nat.max f1 f2) F)). intros acc. rewrite parse_map_S, len_cons'.
     destruct (N.eqb_spec (len l + 1) 0); [lia|].
     rewrite (parse_fuel_mono f1 (Nat.max (Nat.max f1 f2) F) _ _ H1) by lia. cbn [obind].
@@ -618,7 +618,7 @@ Lemma items_parse_arr s bs l r : items s bs l r ->
   exists F, forall acc, parse_arr F (len l) bs acc = Some (VArr (rev acc ++ l), r).
 Proof.
   induction 1 as [bs|bs v r1 l r' (f1 & H1 & _) _ (F & HF)].
-  - exists 1%nat. intros acc. rewrite app_nil_r. reflexivity.
+  - exists 1%nat. intros acc. rewrite app_nil_r, rev_alt. reflexivity.
   - exists (S (Nat.max f1 F)). intros acc. rewrite parse_arr_S, len_cons'.
     destruct (N.eqb_spec (len l + 1) 0); [lia|].
     rewrite (parse_fuel_mono f1 (Nat.max f1 F) _ _ H1) by lia. cbn [obind].
